@@ -234,6 +234,7 @@ def run(chk):
         for ename in ("lweSymEncrypt", "lweSymEncryptWithExternalNoise"):
             e = v.fn(ename)
             eps, _ = summ.pieces(v, e, hooks=inl())
+            eps = summ.fold_accumulators(eps)
             res = e.params[0]["n"]
             msg = e.params[1]["n"]
             key = e.params[-1]["n"]
